@@ -47,6 +47,7 @@ def run(e: Engine, rep: Report):
     r22(e, rep)
     r23(e, rep)
     r24(e, rep)
+    r24_kinds(e, rep)
     rep.floor('R2.1', 4, 'reply decision sites')
 
 
@@ -67,20 +68,27 @@ def fail_class(e: Engine, ctx: Ctx, expr) -> Optional[str]:
 def r21(e: Engine, rep: Report):
     for cls, meth in EDGES:
         ctx = e.method_ctx(cls, meth)
-        g = e.build(ctx, raises=lambda b, n, r: set())
+        g = e.build(ctx, inline=e.inline_same_self(
+            deny=['handoff', '_call_validator']),
+            raises=lambda b, n, r: set(), max_depth=3)
         where = ctx.func.qname
         rep.functions.add(where)
-        # R = handoff(...)
+        # R = handoff(...), or a loop directly over handoff(...)
         src = [n for n in g.of_kind('stmt') if isinstance(n.ast, ast.Assign)
                and isinstance(n.ast.value, ast.Call) and
                ast.unparse(n.ast.value.func).endswith('handoff')]
-        if not src:
-            rep.error('anchor vanished: results = self.handoff(...) in %s'
-                      % where)
+        direct = [n for n in g.of_kind('iter') if isinstance(n.ast, ast.For)
+                  and isinstance(n.ast.iter, ast.Call) and
+                  ast.unparse(n.ast.iter.func).endswith('handoff')]
+        if not src and not direct:
+            rep.error('anchor vanished: self.handoff(...) in %s' % where)
             continue
-        rv = path_of(src[0].ast.targets[0], src[0].frame)
+        rv = path_of(src[0].ast.targets[0], src[0].frame) if src else None
         scans = [n for n in g.of_kind('iter') if isinstance(n.ast, ast.For)
-                 and path_of(n.ast.iter, n.frame) == rv]
+                 and rv is not None and
+                 path_of(n.ast.iter, n.frame) == rv] + direct
+        anchor = src[0] if src else [
+            c for c in g.calls() if c.ast is direct[0].ast.iter][0]
         bound = set()
         for lp in scans:
             for x in ast.walk(lp.ast.target):
@@ -102,7 +110,18 @@ def r21(e: Engine, rep: Report):
                             if isinstance(y, ast.Name)):
                         bound.add(t2)
                         changed = True
+            # parameters of inlined helpers bound to a derived name
+            for b in g.of_kind('bind'):
+                x = b.extra
+                if x.get('is_self') or x.get('arg') is None:
+                    continue
+                ap = path_of(x['arg'], x['arg_frame'])
+                new = '%s#%d' % (x['param'], b.frame.id)
+                if ap in bound and new not in bound:
+                    bound.add(new)
+                    changed = True
         seen = set()
+        fail_tests = []
         for t in g.of_kind('test'):
             a = t.ast
             if not (isinstance(a, ast.Call) and isinstance(a.func, ast.Name)
@@ -115,6 +134,7 @@ def r21(e: Engine, rep: Report):
             subj = a.args[0]
             fixed = [x for x in ast.walk(subj) if isinstance(x, ast.Subscript)
                      and isinstance(x.slice, ast.Constant) and
+                     rv is not None and
                      rv in (path_of(y, t.frame) for y in ast.walk(x)
                             if isinstance(y, (ast.Name, ast.Attribute)))]
             sp = path_of(subj, t.frame)
@@ -123,6 +143,7 @@ def r21(e: Engine, rep: Report):
                 for sc in t.scopes)
             if in_scan:
                 seen.add(fc)
+                fail_tests.append(t)
             rep.check(in_scan and not fixed, 'R2.1', where,
                       '%s failure test `%s`' % (fc, t.text(50)),
                       'the reply is decided from `%s`, one fixed entry of '
@@ -143,12 +164,61 @@ def r21(e: Engine, rep: Report):
         after = dataflow.must_events_after(
             g, lambda n: ['scan'] if n in scans else [],
             edge=c07.no_call_exc)
-        st = after.get(src[0].id)
+        st = after.get(anchor.id)
         rep.check(isinstance(st, dataflow.Top) or 'scan' in (st or ()),
                   'R2.1', where, 'every outcome passes the scan',
                   'a path from the handoff call reaches the end of the '
-                  'function without scanning the results', loc=src[0].loc(),
+                  'function without scanning the results', loc=anchor.loc(),
                   reason='scan on every path after handoff()')
+        # a failure found in the scan is final: once a failure-class test
+        # was positive, no success reply (a 2xx Reply / 2.x.x message) is
+        # produced any more
+        fx = e.facts(g)
+
+        def success_marker(n: Node) -> bool:
+            if n.kind == 'call':
+                res = n.extra.get('res')
+                if res is not None and any(c.endswith('reply.Reply')
+                                           for c in res.ctor_of) and \
+                        n.ast.args and isinstance(n.ast.args[0],
+                                                  ast.Constant) and \
+                        str(n.ast.args[0].value).startswith('2'):
+                    return True
+            if n.kind == 'stmt' and isinstance(n.ast, ast.Assign) and \
+                    isinstance(n.ast.value, ast.Constant) and \
+                    isinstance(n.ast.value.value, str) and \
+                    n.ast.value.value.startswith('2.') and \
+                    isinstance(n.ast.targets[0], ast.Attribute) and \
+                    n.ast.targets[0].attr == 'message':
+                return True
+            return False
+
+        def step(n, label, st):
+            if fx.infeasible(n, label):
+                return None
+            if st:
+                return True
+            if n in fail_tests and label == 'T':
+                return True
+            return False
+        marks = [n for n in g.nodes if success_marker(n)]
+        rep.evaluations += 1
+        bad = None
+        for mk in marks:
+            pth = dataflow.typestate_witness(
+                g, False, step, lambda n, st: n is mk and st)
+            if pth:
+                bad = pth
+                break
+        rep.check(bad is None, 'R2.1', where,
+                  'a failed result is final for the reply',
+                  'after a failed enqueue result was found, a success reply '
+                  'can still be produced (a later result overwrites the '
+                  'failure): the client is told 2xx although one envelope '
+                  'was not taken into custody', loc=ctx.func.loc(),
+                  reason='no success reply is built once a failure test '
+                  'was positive', witness=dataflow.render_path(bad, 16)
+                  if bad else None)
 
 
 def r22(e: Engine, rep: Report):
@@ -218,6 +288,27 @@ def r22(e: Engine, rep: Report):
                   'for the write: enqueue returns ids/None before custody '
                   'is taken' % e.call_name(w), loc=w.loc(),
                   reason='_pool_imap(...store.write...)')
+    # the returned list is the unfiltered zip of envelopes and write results
+    for r in g.of_kind('stmt'):
+        if not (isinstance(r.ast, ast.Return) and
+                isinstance(r.ast.value, ast.Name)):
+            continue
+        rv = path_of(r.ast.value, r.frame)
+        defs = [s for s in g.of_kind('stmt') if isinstance(s.ast, ast.Assign)
+                and path_of(s.ast.targets[0], s.frame) == rv]
+        rep.evaluations += 1
+        ok = len(defs) == 1 and 'zip(' in ast.unparse(defs[0].ast.value) and \
+            not any(isinstance(x, (ast.ListComp, ast.GeneratorExp)) and
+                    any(g2.ifs for g2 in x.generators)
+                    for x in ast.walk(defs[0].ast.value))
+        rep.check(ok, 'R2.2', where,
+                  'enqueue returns one result per envelope, failures '
+                  'included',
+                  'the list enqueue() returns is rebuilt or filtered (%d '
+                  'definitions): a failed write can disappear from it, so '
+                  'the edge sees no error and acknowledges the message'
+                  % len(defs), loc=r.loc(),
+                  reason='single definition: list(zip(envelopes, ids))')
     before = dataflow.must_events_before(
         g, lambda n: ['write'] if n in writes else [])
     for r in g.of_kind('stmt'):
@@ -336,3 +427,41 @@ def r24(e: Engine, rep: Report):
                   'result', 'after a RelayError entry was found the '
                   'function can still return a fresh message id',
                   loc=t.loc(), reason='T branch returns the error')
+
+
+# ---------------------------------------------- R2.4 (kinds): scan reached
+def r24_kinds(e: Engine, rep: Report):
+    """For each per-recipient result shape a relay can return (mapping,
+    sequence), the entry scan of ProxyQueue.enqueue is actually reached:
+    abstract interpretation of the function with the relay result pinned to
+    that kind (isinstance narrowing decides which branches are feasible)."""
+    from ..kinds import Kinds, KindFlow, ks, show
+    ctx = e.method_ctx('slimta.queue.proxy.ProxyQueue', 'enqueue')
+    g = e.build(ctx, raises=lambda b, n, r: set())
+    where = ctx.func.qname
+    calls = [n for n in g.nodes if n.kind == 'call' and
+             e.call_name(n) in ('_attempt', 'attempt') and
+             'relay' in ast.unparse(n.ast.func)]
+    if not calls:
+        return
+    tests = [t for t in g.of_kind('test') if isinstance(t.ast, ast.Call) and
+             isinstance(t.ast.func, ast.Name) and
+             t.ast.func.id == 'isinstance' and len(t.ast.args) == 2 and
+             fail_class(e, ctx, t.ast.args[1]) == 'relay' and
+             any(sc.kind == 'loop' for sc in t.scopes)]
+    for kind in ('Dict', 'List'):
+        K = Kinds(e)
+        K.call_overrides = {id(calls[0].ast): ks(kind)}
+        flow = KindFlow(K, g)
+        rep.evaluations += 1
+        reached = [t for t in tests if flow.IN.get(t.id) is not None]
+        rep.check(bool(reached), 'R2.4', where,
+                  'entry scan is reached for a %s result' % (
+                      'mapping' if kind == 'Dict' else 'sequence'),
+                  'when the relay returns a %s, the isinstance tests in '
+                  'front of the per-recipient scan rule it out (e.g. a '
+                  'dict view is not a Sequence): the scan is skipped and a '
+                  'rejected recipient is acknowledged' % (
+                      'mapping' if kind == 'Dict' else 'list'),
+                  loc=ctx.func.loc(),
+                  reason='RelayError test reachable with kind ' + kind)
